@@ -35,6 +35,7 @@ const I64X: [i64; 15] = [i64::MIN, i64::MIN + 1, -9_223_372_036_854_776, -8_334_
 pub fn run(ctx: &Ctx) -> Value {
     let mut tw = Tw::new(&ctx.out, "Trace_Totality", ctx.t(6_000, 40_000));
     let mut rng = Rng::new(ctx.seed ^ 0x15);
+    let mut tc = Tw::new(&ctx.out, "Trace_ItemsCount", ctx.t(400, 4_000));
     let rounds = ctx.t(1, 12);
     let dates: Vec<NaiveDate> = [MIN_DAY, MIN_DAY + 1, MIN_DAY + 366, -1, 0, 1, 719_163, 738_000, 738_000 + 59, MAX_DAY - 366, MAX_DAY - 1, MAX_DAY].iter().map(|&n| mk_date(n)).collect();
     let times: Vec<NaiveTime> = vec![mk_time_any(0, 0), mk_time_any(86_399, 999_999_999), mk_time_any(86_399, 1_999_999_999), mk_time_any(43_200, 1_000_000_000), mk_time_any(59, 1_500_000_000)];
@@ -265,6 +266,10 @@ pub fn run(ctx: &Ctx) -> Value {
             let a = json!({"f": cps(&f)});
             let bound = 7 * f.len() + 17;
             let f = f.as_str();
+            if f.chars().count() <= 48 {
+                tc.emit(ev("items.count", a.clone(), || { let ns = StrftimeItems::new(f).take(bound + 1).count(); let nl = StrftimeItems::new_lenient(f).take(bound + 1).count();
+                    json!({"strict": ns as i64, "lenient": nl as i64, "strict_err": StrftimeItems::new(f).parse().is_err(), "capped": ns > bound || nl > bound}) }));
+            }
             call!("StrftimeItems.count", a.clone(), { let n = StrftimeItems::new(f).take(bound + 1).count(); json!({"out": "ok", "v": {"k": "count", "n": n as i64, "capped": n > bound}}) });
             call!("StrftimeItems.count_lenient", a.clone(), { let n = StrftimeItems::new_lenient(f).take(bound + 1).count(); json!({"out": "ok", "v": {"k": "count", "n": n as i64, "capped": n > bound}}) });
             call!("StrftimeItems.parse", a.clone(), rr(StrftimeItems::new(f).parse(), |v| json!({"k": "count", "n": v.len() as i64, "capped": v.len() > bound})));
@@ -334,7 +339,8 @@ pub fn run(ctx: &Ctx) -> Value {
     let _ = Timelike::hour(&times[0]);
     let _ = Datelike::year(&dates[0]);
     tw.finish();
-    json!({"events": tw.total, "rounds": rounds, "entry_points_listed": 200})
+    tc.finish();
+    json!({"events": tw.total + tc.total, "item_count_events": tc.total, "rounds": rounds, "entry_points_listed": 200})
 }
 
 #[derive(serde::Deserialize)] struct TsS(#[serde(with = "chrono::serde::ts_seconds")] DateTime<Utc>);
